@@ -12,6 +12,9 @@ valid, exactly one B per accepted AW+W pair and one R per accepted AR, never a r
 response time while the master is ready) and a register model (a write changes exactly the strobed bytes of exactly
 the addressed register according to the field kinds, a read returns the model's value, unmapped accesses change
 nothing, every access of the counter register is counted exactly once).
+A quarter of the maps sit behind std.axi.axi4_light.interconnect.Interconnect (2-3 slaves in power-of-two windows with
+gaps: accesses outside every window are answered exactly once with DECERR); Memory blocks configured with
+allow_unaligned are also accessed at addresses that are not word aligned, with partial strobes (byte-level model).
 """
 from __future__ import annotations
 
@@ -83,7 +86,7 @@ def gen_map(rs, small=False):
     for _ in range(nreg):
         if not free:
             break
-        kind = rs.weighted([(4, "mem"), (3, "memu"), (4, "fields"), (2, "cnt"), (2, "file"), (2, "array"), (3, "memory"), (1, "range")])
+        kind = rs.weighted([(4, "mem"), (3, "memu"), (4, "fields"), (2, "cnt"), (2, "file"), (2, "array"), (4, "memory"), (1, "range")])
         if kind in ("file", "array", "memory", "range"):
             n = 2 if kind == "file" else rs.range(2, 3) if kind == "array" else rs.choice([2, 2, 3, 4, 4, 8])
             starts = [w for w in free if all((w + i) in free for i in range(n))]
@@ -95,11 +98,12 @@ def gen_map(rs, small=False):
                     free.remove(w0 + i)
                 e = {"kind": kind, "word": w0, "n": n}
                 if kind == "memory":
-                    e["mode"] = rs.choice(["IMMEDIATE", "IMMEDIATE", "IGNORE", "READBACK", "SPLIT_WORDS"])
+                    e["mode"] = rs.choice(["IMMEDIATE", "IMMEDIATE", "IGNORE", "READBACK", "SPLIT_WORDS", "SPLIT_WORDS"])
                     e["inline"] = rs.below(3) == 0
                     e["noreset"] = rs.below(3) == 0
                     e["init"] = None if rs.below(3) == 0 else [rs.bits(32) for _ in range(n)]
                     e["decl"] = rs.choice(["slice", "class"])
+                    e["unaligned"] = e["mode"] == "SPLIT_WORDS" and rs.below(3) != 0
                 if kind == "range":
                     e["relative"] = rs.below(2) == 1
                 entries.append(e)
@@ -182,7 +186,7 @@ def render_map(m, tag=""):
     for i, e in enumerate(m["entries"]):
         if e["kind"] == "memory":
             init = "Null" if e["init"] is None else "[Unsigned[32](v) for v in " + repr(e["init"]) + "]"
-            cfg.append(f"        self.r{i}._config_(initial={init}, noreset={e['noreset']}, mask_mode=reg32.Memory.MaskMode.{e['mode']}, inline={e['inline']})")
+            cfg.append(f"        self.r{i}._config_(initial={init}, noreset={e['noreset']}, mask_mode=reg32.Memory.MaskMode.{e['mode']}, inline={e['inline']}{', allow_unaligned=True' if e.get('unaligned') else ''})")
     if cfg:
         L += ["    def _config_(self):"] + cfg
     L.append("")
@@ -264,7 +268,7 @@ class Model:
                     self.words[e["word"] + i] = {"kind": "mem", "wmask": 0xFFFFFFFF, "val": 0}
             elif k == "memory":
                 for i in range(e["n"]):
-                    self.words[e["word"] + i] = {"kind": "memory", "wmask": 0xFFFFFFFF, "val": e["init"][i] if e["init"] else 0, "ignore_strb": e["mode"] == "IGNORE"}
+                    self.words[e["word"] + i] = {"kind": "memory", "wmask": 0xFFFFFFFF, "val": e["init"][i] if e["init"] else 0, "ignore_strb": e["mode"] == "IGNORE", "unaligned": bool(e.get("unaligned")), "last": i == e["n"] - 1}
             elif k == "range":
                 for i in range(e["n"]):
                     self.words[e["word"] + i] = {"kind": "range", "wmask": 0, "val": 4 * i if e["relative"] else 4 * (e["word"] + i)}
@@ -276,6 +280,14 @@ class Model:
     def write(self, addr, data, strb):
         w = self.words.get(addr >> 2) if addr < self.m["words"] * 4 else None
         if w is None:
+            return
+        if addr & 3:
+            # unaligned access of a Memory that allows it: byte lane i of the bus goes to byte address addr + i
+            for i in range(4):
+                if (strb >> i) & 1:
+                    ww = self.words[(addr + i) >> 2]
+                    sh = 8 * ((addr + i) & 3)
+                    ww["val"] = (ww["val"] & ~(0xFF << sh)) | (((data >> (8 * i)) & 0xFF) << sh)
             return
         bm = 0
         for b in range(4):
@@ -298,6 +310,12 @@ class Model:
         w = self.words.get(addr >> 2) if addr < self.m["words"] * 4 else None
         if w is None:
             return 0, {0}
+        if addr & 3:
+            v = 0
+            for i in range(4):
+                ww = self.words[(addr + i) >> 2]
+                v |= ((ww["val"] >> (8 * ((addr + i) & 3))) & 0xFF) << (8 * i)
+            return v, {v}
         if w["kind"] == "cnt":
             lag_r = len([t for t in w.get("rd_t", []) if self.now - t <= 3])
             lag_w = len([t for t in w.get("wr_t", []) if self.now - t <= 3])
@@ -312,7 +330,8 @@ class Model:
 def gen_traffic(rs, m, n):
     """list of transactions {"op": "w"|"r", "addr", "data", "strb", timing knobs}"""
     W = m["words"]
-    mapped = sorted(Model(m).words)
+    model_words = Model(m).words
+    mapped = sorted(model_words)
     holes = [w for w in range(W) if w not in mapped]
     ops = []
     for i in range(n):
@@ -324,10 +343,15 @@ def gen_traffic(rs, m, n):
         else:
             wa = W + rs.below(8)  # beyond the map
         addr = wa * 4
+        wd = model_words.get(wa)
+        if wd and wd.get("unaligned") and not wd.get("last") and rs.below(2) == 0:
+            addr += rs.range(1, 3)  # unaligned access that stays inside the memory
         t = {"op": "w" if rs.below(2) else "r", "addr": addr}
         if t["op"] == "w":
             t["data"] = rs.choice([0, 0xFFFFFFFF, rs.bits(32), rs.bits(32), 0xA5A5A5A5])
             t["strb"] = rs.choice([15, 15, 15, rs.range(0, 15), 1, 8, 3, 12])
+            if addr & 3:
+                t["strb"] = rs.choice([1, 2, 4, 8, 3, 6, 12, 5, 10, 15, 7, 14, rs.range(0, 15)])
             t["aw_delay"] = rs.choice([0, 0, 1, 2, rs.below(6)])
             t["w_delay"] = rs.choice([0, 0, 1, 2, rs.below(6)])
             t["b_ready"] = rs.choice(["high", "late", "toggle", "after"])
@@ -339,6 +363,11 @@ def gen_traffic(rs, m, n):
         t["gap"] = rs.choice([0, 0, 0, 1, 3, rs.below(8)])
         ops.append(t)
     return ops
+
+
+def overlaps(busy, addr):
+    """does a 4-byte access at addr touch a byte of an access in flight (unaligned accesses span two words)"""
+    return any(abs(a - addr) < 4 for a in busy)
 
 
 def simulate(m, design, ops, seed, idx, pipelined, reset_at=None, decerr=None):
@@ -411,7 +440,7 @@ def simulate(m, design, ops, seed, idx, pipelined, reset_at=None, decerr=None):
             can_issue = pipelined or not pending_r or ar_sent
             if r_gap > 0 and ar_wait is None:
                 r_gap -= 1
-            elif can_issue and not (t["addr"] in busy_w):
+            elif can_issue and not overlaps(busy_w, t["addr"]):
                 if ar_wait is None:
                     ar_wait = t["ar_delay"]
                 if ar_wait == 0:
@@ -455,7 +484,7 @@ def simulate(m, design, ops, seed, idx, pipelined, reset_at=None, decerr=None):
                 st["pipelined_writes"] += 1
             busy_w[t["addr"]] = busy_w.get(t["addr"], 0) + 1
             for pr_ in pending_r:  # a read of the same address is now concurrent with this write: order unspecified
-                if pr_["addr"] == t["addr"]:
+                if abs(pr_["addr"] - t["addr"]) < 4:
                     pr_["_overlap"] = True
         if hs_w:
             st["w_hs"] += 1
@@ -476,6 +505,8 @@ def simulate(m, design, ops, seed, idx, pipelined, reset_at=None, decerr=None):
                 st["unmapped"] += 1
             if decerr and decerr(t["addr"]):
                 st["decerr_expected"] = st.get("decerr_expected", 0) + 1
+            if t["addr"] & 3:
+                st["unaligned"] = st.get("unaligned", 0) + 1
             wi += 1
             aw_sent = w_sent = False
             aw_wait = w_wait = None
@@ -507,12 +538,14 @@ def simulate(m, design, ops, seed, idx, pipelined, reset_at=None, decerr=None):
             t = rq[ri]
             st["ar_hs"] += 1
             drive["axi_arvalid"] = 0
-            t = dict(t, _overlap=t["addr"] in busy_w)
+            t = dict(t, _overlap=overlaps(busy_w, t["addr"]))
             pending_r.append(t)
             if (t["addr"] >> 2) not in model.words:
                 st["unmapped"] += 1
             if decerr and decerr(t["addr"]):
                 st["decerr_expected"] = st.get("decerr_expected", 0) + 1
+            if t["addr"] & 3:
+                st["unaligned"] = st.get("unaligned", 0) + 1
             ri += 1
             ar_wait = None
             r_gap = t["gap"]
@@ -524,7 +557,7 @@ def simulate(m, design, ops, seed, idx, pipelined, reset_at=None, decerr=None):
             t = pending_r.pop(0)
             if pre["axi_rresp"] != (3 if decerr and decerr(t["addr"]) else 0):
                 return "protocol", {"rule": "rresp-not-okay", "clock": k, "rresp": pre["axi_rresp"], "addr": t["addr"]}, st, d
-            if t["addr"] in busy_w or t.get("_overlap"):
+            if overlaps(busy_w, t["addr"]) or t.get("_overlap"):
                 st["reads_overlapping_a_write_not_value_checked"] = st.get("reads_overlapping_a_write_not_value_checked", 0) + 1
                 model.read(t["addr"])  # ordering with the write in flight is unspecified: keep the counters, skip the value
             else:
@@ -660,6 +693,7 @@ def evidence(results, tier):
         "register_kinds": kinds,
         "topology": {t: len([r for r in acc if r["topology"] == t]) for t in sorted({r["topology"] for r in acc})},
         "accesses_outside_every_slave_window(DECERR expected)": agg.get("decerr_expected", 0),
+        "unaligned_accesses(Memory with allow_unaligned)": agg.get("unaligned", 0),
         "simulated_clocks": agg.get("clocks", 0),
         "handshakes": {k: agg.get(k, 0) for k in ("aw_hs", "w_hs", "b_hs", "ar_hs", "r_hs")},
         "schedule_reach": {"aw_before_w": agg.get("aw_first", 0), "w_before_aw": agg.get("w_first", 0), "aw_and_w_same_clock": agg.get("same_clock", 0), "next_write_accepted_while_b_outstanding": agg.get("pipelined_writes", 0), "clocks_bvalid_waited_for_bready": agg.get("b_waited", 0), "clocks_rvalid_waited_for_rready": agg.get("r_waited", 0), "unmapped_or_hole_accesses": agg.get("unmapped", 0), "partial_strobe_writes": agg.get("partial_strobe", 0)},
